@@ -160,7 +160,10 @@ def make_algo(a):
     raise ValueError(k)
 
 
-def build_node(spec):
+PRESET_COMM = [None]
+
+
+def build_node(spec, parent=None):
     if spec[0] == "sec":
         _, i, cls, fi, mult, lz = spec
         m = fx(mult)
@@ -176,12 +179,35 @@ def build_node(spec):
         if cls == "couponhedge":
             return core.CouponPayingHedgeSecurity(n, multiplier=m, fixed_income=bool(fi), lazy_add=bool(lz))
         raise ValueError(cls)
-    _, i, fi, kids, stack = spec
-    children = [build_node(k) for k in kids] if kids else None
+    _, i, fi, kids, stack = spec[:5]
+    how = spec[5] if len(spec) > 5 else "list"
     al = [make_algo(a) for a in stack]
-    if fi:
-        return core.FixedIncomeStrategy(name_of(i), algos=al, children=children)
-    return core.Strategy(name_of(i), algos=al, children=children)
+    cls = core.FixedIncomeStrategy if fi else core.Strategy
+    if how == "late":
+        # the strategy is created without children; its sub-strategies are attached afterwards with parent=
+        s = cls(name_of(i), algos=al, parent=parent) if parent is not None else cls(name_of(i), algos=al)
+        if parent is None and PRESET_COMM[0] is not None:
+            # the user configures the top strategy first and attaches sub-strategies afterwards; the backtest is later
+            # given the same commission function
+            s.set_commissions(PRESET_COMM[0])
+        for k in kids:
+            build_node(k, parent=s)
+        return s
+    children = [build_node(k) for k in kids] if kids else None
+    if how == "dict" and children:
+        # names come from the dictionary keys; the node objects carry placeholder names
+        d = {}
+        for k, c in zip(kids, children):
+            if isinstance(c, str):
+                d[c] = c
+            else:
+                nm = c.name
+                c.name = "tmp_" + nm
+                d[nm] = c
+        children = d
+    if parent is not None:
+        return cls(name_of(i), algos=al, children=children, parent=parent)
+    return cls(name_of(i), algos=al, children=children)
 
 
 def frame_of(f, idx):
